@@ -278,6 +278,41 @@ def rows_correspondence(ctx, rng, n):
                    detail="disagreements %d" % bad)
 
 
+def integral_correspondence(ctx, rng, n):
+    """Model/PowerIntegral.lean (Props/C03Integral.lean: the closed form IS the integral of the item polynomials) vs the real
+    power._integrate on random coefficient arrays (1-3 components, 1-9 items, 1-5 terms)"""
+    from dassh import power as dpower
+    if not modelio.build_driver(ctx):
+        return
+    reqs, want = [], []
+    for _ in range(n):
+        nt = rng.randint(1, 5)
+        comps = []
+        for c in range(3):
+            if rng.random() < 0.7 or (c == 2 and not comps):
+                comps.append(np.array([[[rng.uniform(-50, 50) if j else rng.uniform(1.0, 9e3) for j in range(nt)]
+                                        for _i in range(rng.randint(1, 9))]]))
+            else:
+                comps.append(None)
+        got = dpower._integrate(comps[0], comps[1], comps[2], nt)
+        flat = [float(v) for c in comps if c is not None for item in c[0] for v in item]
+        reqs.append("pint %d | %s" % (nt, " ".join(str(bits(v)) for v in flat)))
+        want.append(float(np.ravel(got)[0]))
+        ctx.evals += 1
+    bad, worst = 0, 0.0
+    for rep, w in zip(modelio.ask(reqs), want):
+        parts = rep.split()
+        m = unbits(int(parts[1])) if parts[0] == "ok" else float('nan')
+        dev = abs(m - w) / max(abs(w), 1.0)
+        worst = max(worst, dev if dev == dev else 1.0)
+        if not (dev <= 1e-12):
+            bad += 1
+            if bad == 1:
+                ctx.problem("correspondence", "Model.PowerIntegral.cellAverage vs power._integrate", "model %r, real %r (%s)" % (m, w, rep[:80]))
+    ctx.obligation("correspondence: Model.PowerIntegral.cellAverage = power._integrate on %d coefficient arrays (max rel dev %.2g)"
+                   % (len(reqs), worst), bad == 0, kind="correspondence", detail="disagreements %d" % bad)
+
+
 def run(ctx):
     rng = random.Random(3300 + ctx.seed)
     ctx.rule = ("oracle: real reactors with user power (1-4 axial cells, polynomial order 0-2, missing components, zero cells), "
@@ -286,6 +321,8 @@ def run(ctx):
     ctx.prove("Dassh.Props.C03")
     ctx.prove("Dassh.Props.C03Rows")
     rows_correspondence(ctx, rng, 200 if ctx.thorough else 40)
+    ctx.prove("Dassh.Props.C03Integral")
+    integral_correspondence(ctx, rng, 400 if ctx.thorough else 100)
     oracle(ctx, rng, 60 if ctx.thorough else 14)
     linearity(ctx, rng, 10 if ctx.thorough else 3)
     ctx.nontrivial = ctx.evals
